@@ -76,6 +76,7 @@ pub fn opt_hex(b: Option<&[u8]>) -> String { b.map(hexs).unwrap_or("N".into()) }
 pub fn opt_num(c: Option<u32>) -> String { c.map(|c| c.to_string()).unwrap_or("N".into()) }
 
 /// The documented lookup contract: match by id list *and* RP ID; store order kept.
+#[derive(Clone)]
 pub struct RefStore {
     pub items: Vec<Passkey>,
     pub disc: fn() -> DiscoverabilitySupport,
